@@ -15,7 +15,7 @@ EXPLANATION = ("real obtain_latters / obtain_formers / number_to_dna / dna_to_nu
                "and compared for symbolic v; call sites inside dsw must pass the caller's observed length (dynamic taint on the real generator)")
 STUBS = ["Monitor.__call__ has an empty body"]
 ASSUMPTIONS = ["k itself is never symbolic (4^k is a size); every k in the stated range is a separate exploration"]
-BUDGET_S = {"quick": 900, "thorough": 3600}
+BUDGET_S = {"quick": 900, "thorough": 1500}
 
 
 def make_loader(cfg):
